@@ -276,6 +276,91 @@ Proof.
   - vm_compute. reflexivity.
 Qed.
 
+(* ================================================================================================
+   The ENCODER side (proofs/ServerEncode.v): `reply` marshals with bencode.MustMarshal (an error is a
+   panic), sendError / Query with bencode.Marshal, and the compact node-list encoders panic on a
+   contact whose address does not have the width of its list.  In the codec model (model/Krpc.v)
+   these are the outcomes CErr / CPanic of `encode_xmsg : xmsg -> cresult bytes`
+   (`encode_msg m = Some b` iff `encode_xmsg (x_of_msg m) = COk b`).
+   For EVERY datagram `ESend dst m kind` of EVERY step — replies, errors, the node's own queries —
+   the encoding succeeds.  Hypotheses beyond C01_total_inv, each explicit:
+     sha1_ok            the token hash is within the decoder's string limit (SHA-1: 20 bytes);
+     wf_store_items     the BEP 44 wrapper hands out k / sig / seq / v of the codec's widths and
+                        KRPC errors with int64 codes, relative to a store invariant `store_ok` it
+                        maintains (ServerEncode.wf_store_items_bep44: true of the Bep44.v wrapper);
+     EncInv s           table ports below 65536 and store_ok of the store (inductive: step_enc);
+     enc_event e        the source / AddNode port is below 65536 (the model's ports are unbounded),
+                        the decoded message is what the decoder delivers (in_msg_ok, a consequence
+                        of C15_decode_wf: ServerEncode.decoded_in_msg_ok), and for the node's own
+                        queries the caller's method name, transaction id and arguments are
+                        encodable (query_args_ok: 20-byte info_hash / target, k 32, sig 64, ...).
+   ================================================================================================ *)
+From Dht Require Compact Bencode RunServer.
+From Dht Require Import ServerEncode.
+
+Section C01Encode.
+  Variable Store : Type.
+  Variable w_put : Store -> witem -> Z -> Store * put_result.
+  Variable w_get : Store -> bytes -> Z -> Store * get_result.
+  Variable sha1 : bytes -> bytes.
+  Variable id_secure : N -> bytes -> bool.
+  Variable cfg : config.
+  Variable store_ok : Store -> Prop.
+
+  Notation step := (step Store w_put w_get sha1 id_secure cfg).
+
+  Theorem C01_reply_encodes s e ch s' out dst m kind :
+    wf_cfg cfg -> sha1_ok sha1 -> wf_store_items Store w_put w_get store_ok ->
+    Inv Store cfg s -> EncInv Store store_ok s -> wf_event e -> enc_event e ->
+    step s e ch = SR Store s' out -> In (ESend dst m kind) out ->
+    exists b, encode_xmsg (x_of_msg m) = Compact.COk b /\ encode_msg m = Some b.
+  Proof. exact (ServerEncode.C01_reply_encodes Store w_put w_get sha1 id_secure cfg store_ok s e ch s' out dst m kind). Qed.
+
+  (* the invariant used above is inductive, from any initial state whose store is ok *)
+  Theorem C01_encode_invariant s :
+    wf_cfg cfg -> sha1_ok sha1 -> wf_store_items Store w_put w_get store_ok ->
+    reachable_enc Store w_put w_get sha1 id_secure cfg store_ok s ->
+    reachable Store w_put w_get sha1 id_secure cfg s /\ Inv Store cfg s /\ EncInv Store store_ok s.
+  Proof. exact (fun Hc Hs Hi => reachable_enc_inv Store w_put w_get sha1 id_secure cfg store_ok Hc Hs Hi s). Qed.
+End C01Encode.
+
+(* the store premise holds of the BEP 44 wrapper the model runner plugs in (model/RunServer.v) *)
+Theorem C01_store_premise_bep44 edv exp store_fail :
+  wf_store_items RunServer.store (RunServer.w_put_impl edv store_fail) (RunServer.w_get_impl exp) b44_store_ok.
+Proof. exact (wf_store_items_bep44 edv exp store_fail). Qed.
+
+(* non-vacuity: the hypotheses hold of the concrete state sE (parameters of ServerExamples.v; two
+   pings answered by an IPv4 and an IPv6 node), and its find_node reply with `nodes` and `nodes6`,
+   as well as the 203 error, are marshalled to the expected bytes (computed by the kernel) *)
+Example C01_encode_hypotheses :
+  wf_cfg cfg0 /\ sha1_ok sha0 /\ wf_store_items unit wp0 wg0 (fun _ => True) /\
+  Inv unit cfg0 sE /\ EncInv unit (fun _ => True) sE /\
+  wf_addr srcE /\ (port srcE < 65536)%N /\ (N.of_nat (List.length dgE_find_node) <= Bencode.max_str_len)%N /\
+  wf_event (packet_of_bytes srcE dgE_find_node) /\ enc_event (packet_of_bytes srcE dgE_find_node).
+Proof. exact sE_find_node_hyps. Qed.
+
+Definition C01_wire (r : step_result unit) : option (addr * send_kind * option bytes) :=
+  match r with
+  | Server.SR _ _ [ESend d m k] => Some (d, k, encode_msg m)
+  | _ => None
+  end.
+
+Example C01_find_node_reply_encodes :
+  C01_wire (stepE sE (packet_of_bytes srcE dgE_find_node) chE) = Some (srcE, SReply, Some wireE_find_node) /\
+  List.length wireE_find_node = 144%nat.
+Proof. vm_compute. split; reflexivity. Qed.
+
+Example C01_error_203_encodes :
+  C01_wire (stepE sE (packet_of_bytes srcE dgE_announce) no_choice) = Some (srcE, SError, Some wireE_203) /\
+  C01_wire (step0 s0 (packet_of_bytes srcE dgE_announce) no_choice) = Some (srcE, SError, Some wireE_203).
+Proof. vm_compute. split; reflexivity. Qed.
+
+(* the encoder's panic is real for what the invariants exclude: a contact of the wrong family *)
+Example C01_encoder_panics_on_wrong_family :
+  encode_xmsg (x_of_msg (reply_msg cfg0 srcE [x61] (mkRet zero20 (Some [niB]) None None None None None None None None [] zero32 zero64 None)))
+  = Compact.CPanic.
+Proof. vm_compute. reflexivity. Qed.
+
 Print Assumptions C01_total.
 Print Assumptions C01_total_inv.
 Print Assumptions C01_handlers_total.
@@ -296,3 +381,10 @@ Print Assumptions C01_bytes_trailing_used.
 Print Assumptions C01_bytes_dropped.
 Print Assumptions C01_bytes_oversize_port0.
 Print Assumptions C01_bytes_history.
+Print Assumptions C01_reply_encodes.
+Print Assumptions C01_encode_invariant.
+Print Assumptions C01_store_premise_bep44.
+Print Assumptions C01_encode_hypotheses.
+Print Assumptions C01_find_node_reply_encodes.
+Print Assumptions C01_error_203_encodes.
+Print Assumptions C01_encoder_panics_on_wrong_family.
